@@ -140,6 +140,12 @@ const (
 	// QMemoRebind: like QMemo but a hit on a labelled expression re-binds
 	// the label (used to tell D13 from D8).
 	QMemoRebind = "memo-model-rebind"
+	// QLeaderReuse: in a parser generated with -support-left-recursion the FINISHED result of a
+	// leader stays in the rule table at its start offset whatever the Memoize option says, so a
+	// second evaluation of that rule at that offset (after backtracking) is answered from the
+	// table: its blocks do not run again, its state changes are not made again, the terminal
+	// failures inside it are not recorded again.
+	QLeaderReuse = "lr-leader-reuse"
 )
 
 type memoKey struct {
@@ -450,18 +456,22 @@ func (ip *Interp) evalRule(r *Rule, pos int) (bool, int, any) {
 	// (parseRuleMemoize); a rule of a cycle is not, except that the FINISHED result of a
 	// leader stays in the table at its start offset
 	lrRule := ip.O.LeftRec && ip.an.LeftRec[r.Name]
+	leaderReuse := useMemo || ip.O.Quirks[QLeaderReuse]
+	if leaderReuse && lrRule {
+		if ip.leaderMemo == nil {
+			ip.leaderMemo = map[string]memoVal{}
+		}
+		if m, ok := ip.leaderMemo[key]; ok {
+			if _, growing := ip.seeds[key]; !growing {
+				return m.ok, m.end, m.val
+			}
+		}
+	}
 	if useMemo {
 		if ip.ruleMemo == nil {
 			ip.ruleMemo = map[string]memoVal{}
-			ip.leaderMemo = map[string]memoVal{}
 		}
-		if lrRule {
-			if m, ok := ip.leaderMemo[key]; ok {
-				if _, growing := ip.seeds[key]; !growing {
-					return m.ok, m.end, m.val
-				}
-			}
-		} else if m, ok := ip.ruleMemo[key]; ok {
+		if m, ok := ip.ruleMemo[key]; ok && !lrRule {
 			return m.ok, m.end, m.val
 		}
 	}
@@ -471,7 +481,7 @@ func (ip *Interp) evalRule(r *Rule, pos int) (bool, int, any) {
 		}
 		if lrRule && ip.isHead(r, pos) {
 			ok, end, val := ip.grow(r, pos, key)
-			if useMemo {
+			if leaderReuse {
 				ip.leaderMemo[key] = memoVal{ok, end, val}
 			}
 			return ok, end, val
